@@ -92,6 +92,15 @@ Theorem C03_is_null :
     eval_expr row (EIsNotNull e) = EVal (VBool (match v with VNull => false | _ => true end)).
 Proof. exact is_null_tests_presence. Qed.
 
+(* integer vs float literal: the specification compares the exact mathematical values *)
+Example C03_int_vs_float_example :
+  cmp_int_float 3 4613937818241073152 = Eq /\          (* 3 vs 3.0 *)
+  cmp_int_float 3 4615063718147915776 = Lt /\          (* 3 vs 3.5 *)
+  cmp_int_float (-2) 13836183955189006336 = Gt /\      (* -2 vs -2.5 *)
+  cmp_int_float 9007199254740993 4845873199050653696 = Gt /\   (* 2^53 + 1 vs 2^53 (exact, no rounding) *)
+  eval_expr [VInt 3] (ECmp CGe (ECol 0) (EConst (VFloat 4613937818241073152))) = EVal (VBool true).
+Proof. repeat split; vm_compute; reflexivity. Qed.
+
 (* non-vacuity *)
 Example C03_example :
   let t := [[VInt 1; VInt 1000; VStr [97%N]]; [VInt 2; VNull; VStr [122%N]]; [VInt 3; VInt 1255; VNull]] in
